@@ -96,6 +96,38 @@ def parse_gas_data(text):
     return gases, kij
 
 
+def phase_definition(text, name):
+    """Logical lines of the PHASES entry `name` of a database text (name line, reaction, log K data ...) WITHOUT its
+    -T_c / -P_c / -Omega lines: the body of a PHASES block that redefines the gas; critical constants are appended by
+    the caller."""
+    block = None
+    out = None
+    for line in logical_lines(text):
+        first = line.split()[0]
+        if first.upper() in BLOCKS and first == first.upper():
+            if out is not None:
+                break
+            block = first.upper()
+            continue
+        if block != "PHASES":
+            continue
+        key, _ = _opt(line)
+        is_option = key in ("log_k", "logk", "delta_h", "deltah", "analytic", "analytical_expression", "a_e", "ae", "vm",
+                            "add_logk", "add_log_k", "no_check", "check", "mole_balance", "t_c", "p_c", "omega")
+        if "=" not in line and not is_option:
+            # a phase name line
+            if out is not None:
+                break
+            if first == name:
+                out = [name]
+            continue
+        if out is not None and key not in ("t_c", "p_c", "omega"):
+            out.append(" " + line)
+    if out is None or len(out) < 3:
+        raise RuntimeError("PHASES entry %s not found / not understood" % name)
+    return out
+
+
 def strip_critical_constants(text):
     """Copy of a database text whose PHASES carry no -T_c / -P_c / -Omega (=> every gas is ideal) and without
     GAS_BINARY_PARAMETERS data lines."""
